@@ -17,6 +17,9 @@ VEC_OF = {"Counter": "CounterVec", "IntCounter": "IntCounterVec", "Gauge": "Gaug
           "LocalCounter": "CounterVec", "LocalIntCounter": "IntCounterVec", "LocalHistogram": "HistogramVec"}
 
 
+IDENT_PREFIXES = ["v", "read", "rr", "r", "Upper", "_u", "z9", "r_"]
+
+
 def make_decl(k, macro, mtype, label_specs):
     """label_specs: list of (form, nvalues).  Returns (rust source of the module, spec dict)."""
     enums = []
@@ -25,7 +28,9 @@ def make_decl(k, macro, mtype, label_specs):
         lname = "lab%d_%d" % (k, li)
         vals = []
         for vi in range(nv):
-            ident = "v%d_%d" % (li, vi)
+            # identifier shapes: the declared name is also the label value in the shorthand form, so the pool covers leading letters that
+            # prefix-stripping / case-folding code could eat (r.., rr.., R.., _.., upper case, trailing digits)
+            ident = "%s%d_%d" % (IDENT_PREFIXES[(k + li + vi) % len(IDENT_PREFIXES)], li, vi)
             renamed = form.endswith("renamed") and (vi % 2 == 0)
             value = ("val %d-%d \\\"q\\\" é" % (li, vi)) if (renamed and vi == 0 and li == 0) else (("value_%d_%d" % (li, vi)) if renamed else ident)
             vals.append((ident, value, renamed))
